@@ -121,7 +121,7 @@ def run(ctx, R):
                  'the duplicate-key race while recording an aggregate '
                  'propagates to the retry decorator', 'handler re-raises: '
                  '%s' % okr, func=ea)
-    R.count('R17.1', len(found), 4)
+    R.count('R17.1', len(EXPECTED_RETRY), 4)
 
     # ---- R17.2 ----------------------------------------------------------------
     n2 = 0
